@@ -18,6 +18,10 @@ type TypeSpecialization struct {
 	HitCount  int64
 	MissCount int64
 	IsValid   bool
+
+	// source is the route definition the bytecode was compiled from (nil when
+	// added through AddSpecialization, which does not know it)
+	source *ast.Route
 }
 
 // SpecializationCache caches type-specialized code
@@ -57,10 +61,17 @@ func (sc *SpecializationCache) GetSpecialization(routeName string, types map[str
 
 // AddSpecialization adds a new specialization
 func (sc *SpecializationCache) AddSpecialization(routeName string, types map[string]string, bytecode []byte) *TypeSpecialization {
+	return sc.addSpecializationFor(routeName, types, bytecode, nil)
+}
+
+// addSpecializationFor is AddSpecialization that also records the route
+// definition the bytecode was compiled from.
+func (sc *SpecializationCache) addSpecializationFor(routeName string, types map[string]string, bytecode []byte, source *ast.Route) *TypeSpecialization {
 	sc.mutex.Lock()
 	defer sc.mutex.Unlock()
 
 	spec := &TypeSpecialization{
+		source:   source,
 		Name:     fmt.Sprintf("%s<%s>", routeName, typeSignature(types)),
 		Types:    types,
 		Bytecode: bytecode,
@@ -104,6 +115,21 @@ func (sc *SpecializationCache) InvalidateAll() {
 			spec.IsValid = false
 		}
 	}
+}
+
+// getSpecializationFor is GetSpecialization restricted to code compiled from
+// the given route definition.
+func (sc *SpecializationCache) getSpecializationFor(routeName string, types map[string]string, source *ast.Route) *TypeSpecialization {
+	sc.mutex.RLock()
+	defer sc.mutex.RUnlock()
+
+	for _, spec := range sc.specializations[routeName] {
+		if spec.IsValid && (spec.source == nil || spec.source == source) && typesMatch(spec.Types, types) {
+			atomic.AddInt64(&spec.HitCount, 1)
+			return spec
+		}
+	}
+	return nil
 }
 
 // RecordMiss records a specialization miss
